@@ -102,6 +102,57 @@ pub fn process(
     let mut opcode_2part = 0u16;
     let mut long_opcode = false;
 
+    // number of operands the instruction takes (lpm/elpm: none, or Rd and Z/Z+)
+    let allowed_args: &[usize] = match op {
+        Operation::Lpm | Operation::Elpm => &[0, 2],
+        Operation::Br(BranchT::Bs) | Operation::Br(BranchT::Bc) => &[2],
+        Operation::Br(_) => &[1],
+        Operation::Com
+        | Operation::Neg
+        | Operation::Inc
+        | Operation::Dec
+        | Operation::Push
+        | Operation::Pop
+        | Operation::Lsr
+        | Operation::Ror
+        | Operation::Asr
+        | Operation::Swap
+        | Operation::Tst
+        | Operation::Clr
+        | Operation::Lsl
+        | Operation::Rol
+        | Operation::Ser
+        | Operation::Rjmp
+        | Operation::Rcall
+        | Operation::Jmp
+        | Operation::Call
+        | Operation::Bset
+        | Operation::Bclr => &[1],
+        Operation::Ijmp
+        | Operation::Eijmp
+        | Operation::Icall
+        | Operation::Eicall
+        | Operation::Ret
+        | Operation::Reti
+        | Operation::Spm
+        | Operation::Break
+        | Operation::Nop
+        | Operation::Sleep
+        | Operation::Wdr
+        | Operation::Se(_)
+        | Operation::Cl(_)
+        | Operation::Custom(_) => &[0],
+        _ => &[2],
+    };
+    if !allowed_args.contains(&op_args.len()) {
+        bail!(
+            "wrong number of operands for {}: expected {:?}, found {}",
+            op,
+            allowed_args,
+            op_args.len()
+        );
+    }
+
     match op {
         Operation::Add
         | Operation::Adc
